@@ -251,6 +251,25 @@ Theorem c09_flood_outcome_pinned :
 Proof. exact flood_outcome_pinned. Qed.
 Print Assumptions c09_flood_outcome_pinned.
 
+(* ---- a silently dead peer (no FIN, no RST) is noticed by the read deadline --------------------------------- *)
+
+Theorem c09_silent_peer_detected : forall now timeout leftover,
+  exists t, receive_silent true now timeout leftover = Some t /\ t <= now + timeout /\ classify ETimeout = Drop.
+Proof. exact silent_peer_detected. Qed.
+Print Assumptions c09_silent_peer_detected.
+
+(* the variant that arms the deadline only before body reads (seeded change C09-F): covered by the left-over
+   deadline on a connection that has received a frame, never on a fresh one *)
+Theorem c09_leftover_deadline_covers : forall now timeout t0,
+  t0 <= now ->
+  exists t, receive_silent false now timeout (after_body t0 timeout) = Some t /\ t <= now + timeout.
+Proof. exact leftover_deadline_covers. Qed.
+Print Assumptions c09_leftover_deadline_covers.
+
+Theorem c09_silent_peer_undetected_refuted : forall now timeout, receive_silent false now timeout None = None.
+Proof. exact silent_peer_undetected_refuted. Qed.
+Print Assumptions c09_silent_peer_undetected_refuted.
+
 (* ---- classifier ---------------------------------------------------------------------------------------- *)
 
 Theorem c09_classifier_total : forall c,
